@@ -1745,10 +1745,10 @@ func TestVerif_C05(t *testing.T) {
 		r.Note("node_cancel_unreachable", "every node-cancel transaction is rejected by Validate on this tree ("+wd.cancelErr+"), so no cancel-typed output can exist in a reachable ledger")
 	}
 
-	n := r.N(20000, 600000)
+	n := r.N(20000, 300000)
 	// a sample of the decodable candidates is validated again at the end from 16 goroutines at once (the node
 	// validates in several background loops and RPC handlers concurrently)
-	concMax := r.N(3000, 60000)
+	concMax := r.N(3000, 30000)
 	var concEnc [][]byte
 	var concTs []uint64
 	wd.running = true
